@@ -211,7 +211,8 @@ struct Res {
 }
 
 fn run(inp: &Input, rk: ReaderKind) -> Res {
-    let sink = SharedSink::new();
+    // the same (input-determined) sink behaviour under every reader
+    let sink = SharedSink::varied(case_hash(&[&inp.data]) >> 8, inp.data.len() * 16);
     let obs = sut::new_obs(u64::MAX);
     let c = match inp.dec {
         0 => sut::decode(Entry::Lzma, &inp.data, &inp.options, rk, &sink, &obs),
